@@ -231,6 +231,17 @@ fn graft_complex(rng: &mut Rng, text: &str) -> Option<(String, String)> {
         members.reverse();
     }
     let complex = *rng.pick(&["MultiSelector", "CompositeSelector", "DirectionalSelector"]);
+    // one time in four the members are themselves wrapped in complex selectors (nesting is documented as refused)
+    let nested = rng.chance(1, 4);
+    if nested {
+        let wrap = |rng: &mut Rng, inner: &str| -> String {
+            format!("{{\n \"@type\": \"{}\",\n \"selectors\": [\n{}\n ]\n }}", rng.pick(&["MultiSelector", "CompositeSelector", "DirectionalSelector"]), inner)
+        };
+        let all: Vec<String> = members.iter().map(|(_, s)| s.clone()).collect();
+        let first = wrap(rng, &all[..1].join(",\n"));
+        let rest = if rng.chance(1, 2) { wrap(rng, &all[1..].join(",\n")) } else { all[1..].join(",\n") };
+        members = vec![("nested", first), ("nested", rest)];
+    }
     let ann = format!(
         "{{\n \"@type\": \"Annotation\",\n \"@id\": \"grafted\",\n \"target\": {{\n \"@type\": \"{}\",\n \"selectors\": [\n{}\n ]\n }},\n \"data\": []\n}}",
         complex,
